@@ -135,6 +135,21 @@ def save(prog, rep):
               f"the file name must be file_path, extended by '.txt' exactly when it has no extension; found {show(bd.get('fname', NONE))[:120]}")
     # header
     h = bd.get("header", NONE)
+    # "one header line": np.savetxt writes the header verbatim, a line break inside a name (the same strings label the plot axes,
+    # where two-line names are common) would give several header lines.  The joined text may be flattened first.
+    one_line = False
+    def _flat(t):
+        """X if t is X with its line breaks replaced: ' '.join(X.splitlines()) / X.replace('\n', ' ')"""
+        if t[0] == "call" and t[1][0] == "attr" and t[1][2] == "join" and t[1][1][0] == "const" and isinstance(t[1][1][1], str) and "\n" not in t[1][1][1] \
+                and "\r" not in t[1][1][1] and len(t[2]) == 1 and t[2][0][0] == "call" and t[2][0][1][0] == "attr" and t[2][0][1][2] in ("splitlines", "split") and not t[2][0][2]:
+            return t[2][0][1][1]
+        return None
+    inner = _flat(h)
+    if inner is not None:
+        one_line, h = True, inner
+    rep.check(one_line, "C20.save", f"{q}:one-header-line", site, "the header is flattened to one line before it is written",
+              "the header built from the semantics strings goes to np.savetxt as it is: a name with a line break ('Significant\\nwave height', natural for an axis "
+              "label) gives a file with several header lines (15 lines for 12 points) that np.loadtxt(..., skiprows=1) cannot read; write ' '.join(header.splitlines())")
     ok = False
     why = f"header must be ';'.join('<name> (<unit>)' for each dimension); found {show(h)[:200]}"
     ndim = ("sub", ("attr", coords, "shape"), ("const", 1))
@@ -346,6 +361,27 @@ def others(prog, rep):
     rep.check(ok, "C20.others", f"{q}:estimates", fn.where(sc[0][0]) if sc else fn.where(),
               "scatter(dist.conditioning_values, [par[par_name] for par in dist.parameters_per_interval])",
               "the markers must be the interval reference values against the per-interval estimates of the SAME parameter of the same distribution")
+    # text put into a label is TEXT: a symbol from the semantics handed to re.sub as the replacement is read as a template
+    # (r"\\sigma" -> re.error 'bad escape \\s', r"\\theta" -> a TAB in the label) before anything is drawn
+    n_sub = 0
+    for fq, f_ in sorted(prog.functions.items()):
+        if not fq.startswith(PL + ".") or not isinstance(f_.node, ast.FunctionDef) or f_.parent is not None:
+            continue
+        for n_ in ast.walk(f_.node):
+            if isinstance(n_, ast.Call) and isinstance(n_.func, ast.Attribute) and n_.func.attr in ("sub", "subn") and isinstance(n_.func.value, ast.Name) \
+                    and n_.func.value.id == "re" and len(n_.args) >= 2:
+                n_sub += 1
+                repl = n_.args[1]
+                literal = isinstance(repl, ast.Constant) and isinstance(repl.value, str)
+                local_fns = {d_.name for d_ in ast.walk(f_.node) if isinstance(d_, ast.FunctionDef) and d_ is not f_.node}
+                callable_ = isinstance(repl, ast.Lambda) or (isinstance(repl, ast.Name) and repl.id in local_fns)
+                escaped = isinstance(repl, ast.Call) and isinstance(repl.func, ast.Attribute) and repl.func.attr == "escape"
+                rep.check(literal or callable_, "C20.others", f"{fq}:label-text:{n_sub}", f_.where(n_), "the replacement of re.sub is a literal or a callable",
+                          f"re.sub(..., {ast.unparse(repl)[:60]}, ...): a string computed from the caller's semantics is used as the replacement TEMPLATE, its backslashes are "
+                          "interpreted - symbols=[r'\\sigma', 'T_z'] raises re.error before anything is drawn, r'\\theta' puts a TAB into the label"
+                          + (" (re.escape is for patterns, not for replacements)" if escaped else "") + "; pass a callable: lambda match: text")
+    if n_sub == 0:
+        rep.fail("C20.others", f"{PL}:label-text", "virocon/plotting.py", "no re.sub call found in the plotting module (anchor vanished)")
     # isodensity
     q = f"{PL}.plot_2D_isodensity"
     fn = prog.func(q)
